@@ -54,6 +54,10 @@ def explore(ctx):
         else:
             sc = scengen.gen_scenario(rnd, 'faults')
             sc['cfg']['no_cache'] = rnd.random() < 0.4
+            if it % 8 == 5 and len(sc['files']) > 1:
+                # a copy into a test directory fails (ENOSPC, EACCES, EPERM): no test may run on the incomplete set
+                sc['copy_fault'] = rnd.randint(1, 8)
+                sc['copy_fault_errno'] = rnd.choice([28, 13, 1])
             if rnd.random() < 0.4:   # revisit: run the same passes twice
                 sc['passes'] = sc['passes'] + [dict(p) for p in sc['passes']]
         o = driver.run_scenario(sc, ctx.tmp)
@@ -62,8 +66,9 @@ def explore(ctx):
             ctx.count('diverged')
             continue
         oracle(ctx, sc, o, 'each')
-        each.append((driver.coq_scenario(sc, o.perm), o.out, sc))
-        ctx.count(f'each:k={len(sc["files"])}:cache={"off" if sc["cfg"]["no_cache"] else "on"}')
+        if not sc.get('copy_fault'):      # (the model has no copy faults: oracle only)
+            each.append((driver.coq_scenario(sc, o.perm), o.out, sc))
+        ctx.count(f'each:k={len(sc["files"])}:cache={"off" if sc["cfg"]["no_cache"] else "on"}' + (':copy-fault' if sc.get('copy_fault') else ''))
         if any(p['worked'] for p in o.passes) and any(rc != 0 for (_c, rc, _w, _l) in o.testlog):
             ctx.nontriv(repr((sc['files'], sc['passes'], sc['rules'], sc['cfg'], sc['sched'])))
     # oracle-only sweep of cache-revisit scenarios with several files (no model evaluation needed)
